@@ -129,6 +129,21 @@ def destroy_model(E, st, args, kw):
     raise Unsupported('native destroy function called explicitly')
 
 
+# ------------------------------------------------------------------------------------------------ ctypes glue, refined
+def m_create_string_buffer(E, st, args, kw):
+    """rawapi's model + the CPython outcome for sizes that are not a Py_ssize_t: ctypes raises OverflowError ("cannot fit 'int'
+    into an index-sized integer") for n > sys.maxsize.  (MemoryError for sizes the machine cannot provide is not modelled.)"""
+    if len(args) == 1 and not kw and is_intlike(args[0]):
+        outs = []
+        big, ok = E.split(st, zint(args[0]) > 2 ** 63 - 1)
+        if big is not None:
+            outs += rawapi.rz(big, OverflowError, "cannot fit 'int' into an index-sized integer")
+        if ok is not None:
+            outs += rawapi.m_create_string_buffer(E, ok, args, kw)
+        return outs
+    return rawapi.m_create_string_buffer(E, st, args, kw)
+
+
 # ------------------------------------------------------------------------------------------------ entropy
 def add_random(reg):
     """Crypto.Random.get_random_bytes(n): n fresh bytes of the system entropy tape (nothing is known about them but the length)"""
@@ -144,8 +159,41 @@ def add_random(reg):
 def hash_registry():
     reg = base_registry()
     rawapi.install_glue(reg)
+    reg.models[rawapi.R + 'create_string_buffer'] = m_create_string_buffer
     reg.add(ClassContract(NS, fields=dict(STATE_FIELDS), abstract=True))
     rawapi.smartpointer_contract(reg, 'obj:' + NS)
     install_keccak(reg)
     add_random(reg)
     return reg
+
+
+# ------------------------------------------------------------------------------------------------ call-order automata (C10)
+def fsm_clauses(key, preds, method, guard=None):
+    """Contract clauses of `method` generated from the documented table spec/fsm.py FSM[key].
+    preds: {state (tuple of the methods allowed next): predicate over `self` that characterises the state in the object}.
+    guard: predicate selecting the objects that follow this table (e.g. 'not self._update_after_digest'); it must be immutable.
+    Returns (forbidden, post): `forbidden` = the condition (over the entry state) under which the table forbids the call
+    -> TypeError, object unchanged;  `post` = {name: 'old(state s) ==> state step(s, method)'} for every reachable state that
+    permits it.  The reachable states of the table must be exactly the states given predicates (finite comparison)."""
+    from spec import fsm
+    states = fsm.reach(key)
+    norm = {fsm._norm(s): p for s, p in preds.items()}
+    assert set(norm) == set(states), 'FSM %s: reachable states %r, predicates for %r' % (key, states, sorted(norm))
+    g = '(%s) and ' % guard if guard else ''
+    forb, post = [], {}
+    for i, s in enumerate(states):
+        n = fsm.step(key, s, method)
+        if n is None:
+            forb.append('(%s(%s))' % (g, norm[s]))
+        else:
+            post['fsm_%s_%s_from_%d' % (key.replace('.', '_'), method, i)] = 'old(%s(%s)) ==> (%s(%s))' % (g, norm[s], g, norm[n])
+    return (' or '.join(forb) if forb else 'False'), post
+
+
+def fsm_join(*parts):
+    """clauses of one method of a class whose objects follow one of several tables (selected by guards)"""
+    forb = [f for f, _ in parts if f != 'False']
+    post = {}
+    for _, p in parts:
+        post.update(p)
+    return (' or '.join(forb) if forb else 'False'), post
